@@ -87,14 +87,33 @@ JoinRow(a, b) ==
   [k |-> "opt", shape |-> "join", ks |-> <<a, b>>, prog |-> prog, fns |-> Host,
    runs |-> RunSeq(prog, objs, 1, <<>>), done |-> TRUE]
 
-Init == \/ \E sh \in {"nest2", "seq2", "first"}, k1 \in 1..NKinds, m1 \in 0..NC :
+\* ---- a block ending in "return literal" behind a condition the optimizer decides -------------------------
+\* The bytes of the literal stand right in front of a jump target; every value of the high and of the low operand
+\* byte which is also an opcode is tried (a pass which looks at bytes instead of instructions takes them for one).
+RetLit(h, l) == h * 256 + l
+RetProg(h, l, m, infn) ==
+  LET blk == <<If(ConstConds[m], <<Ret(LitI(RetLit(h, l)))>>), If(Ref("C1"), <<Ret(LitI(3))>>), If(Ref("C2"), <<Ret(LitI(2))>>), Ret(LitI(1))>> IN
+  IF infn THEN <<<<"func", "pick", <<>>, blk>>, Ret(BinE("+", CallE("pick", <<>>), LitI(0)))>> ELSE blk
+RetRow(h, l, m, infn) ==
+  LET prog == RetProg(h, l, m, infn)
+      objs == <<<<<<"C1", B(TRUE)>>, <<"C2", B(FALSE)>>>>, <<<<"C1", B(FALSE)>>, <<"C2", B(TRUE)>>>>>> IN
+  [k |-> "opt", shape |-> "retlit", ks |-> <<h, l, m>>, prog |-> prog, fns |-> Host,
+   runs |-> RunSeq(prog, objs, 1, <<>>), done |-> TRUE]
+
+Init == \/ \E h \in 0..45 : row = [k |-> "ret0", h |-> h, done |-> FALSE]
+        \/ \E sh \in {"nest2", "seq2", "first"}, k1 \in 1..NKinds, m1 \in 0..NC :
              /\ (m1 > 0 => UsesC(k1))
              /\ row = [k |-> "opt0", shape |-> sh, k1 |-> k1, m1 |-> m1, done |-> FALSE]
         \/ \E a \in 1..NJ : row = [k |-> "join0", a |-> a, done |-> FALSE]
 
 Next ==
   /\ ~row.done
-  /\ \/ /\ row.k = "join0"
+  /\ \/ /\ row.k = "ret0"
+        \* conditions 1, 3, 5: true, 1 == 1, 2 * 3 == 6 (decided true); 2: false (decided false)
+        /\ \E l \in {0, 1, 2, 8, 9, 24, 255}, m \in {1, 2, 3, 5}, infn \in BOOLEAN :
+             /\ (Tier = "thorough" \/ (row.h + l + m + Seed - 1) % 4 = 0 \/ row.h = 1)
+             /\ row' = RetRow(row.h, l, m, infn)
+     \/ /\ row.k = "join0"
         /\ \E b \in 1..NJ :
              /\ (Tier = "thorough" \/ (row.a + b + Seed - 1) % 3 = 0)
              /\ row' = JoinRow(JoinLits[row.a], JoinLits[b])
